@@ -24,6 +24,32 @@ theorem recvG_never_crashes (first : Bool) (i : Nat) (reqs : List FReq) : recvG 
 
 theorem recv_never_crashes (reqs : List FReq) : recv reqs ≠ .crash := recvG_never_crashes true 0 reqs
 
+/-- **The waiting event loop is always released**: however the receive side ends - clean EOF, refused stream,
+    malformed node - it reports `released` (the deferred `close(initialized)`), so `Stream` never hangs on a stream it
+    refused. -/
+theorem recvG_always_releases (first : Bool) (i : Nat) (reqs : List FReq) (o : RecvOut)
+    (h : recvG true first i reqs = .done o) : o.released = true := by
+  induction reqs generalizing first i o with
+  | nil => simp [recvG] at h; rw [← h]
+  | cons r rs ih =>
+    have hcons : ∀ (res : RecvRes), RecvRes.cons i res = .done o → ∃ o', res = .done o' ∧ o.released = o'.released := by
+      intro res hres
+      cases res with
+      | crash => simp [RecvRes.cons] at hres
+      | done o' => simp [RecvRes.cons] at hres; exact ⟨o', rfl, by rw [← hres]⟩
+    unfold recvG at h
+    cases first
+    · simp only [Bool.false_eq_true, if_false] at h
+      obtain ⟨o', h1, h2⟩ := hcons _ h
+      rw [h2]; exact ih false (i + 1) o' h1
+    · simp only [if_true] at h
+      split at h
+      · exact ih true (i + 1) o h
+      · cases hn : r.node <;> simp [hn, missingNode, NodeK.parses] at h
+        all_goals first
+          | (rw [← h])
+          | (obtain ⟨o', h1, h2⟩ := hcons _ h; rw [h2]; exact ih false (i + 1) o' h1)
+
 /-- ... also when the stream breaks with an unexpected error; what was handed on before is unaffected. -/
 theorem recvE_never_crashes (endErr : Bool) (reqs : List FReq) : recvE endErr reqs ≠ .crash := by
   unfold recvE
